@@ -49,6 +49,13 @@ CHECKS.update({
         note="Sampling of the lattice for replay is seeded (every 150th point quick, every 12th thorough); TLC itself covers all points. Exceptions raised identically by both sides (e.g. OAAHOC with z0-only forcing) count as agreement.", design="4/C13"),
 })
 
+
+CHECKS.update({
+    "C15": dict(technique="TLC model checking of spec/Cache.tla (all scenarios x crash at every step) + execution of every TLC behaviour on the real solver with a real cache directory (bit-identical to the cache-free solve, hit/solved compared) + truncation of a stored entry at byte offsets + TLC trace validation of the cache hook events (spec/TraceCache.tla)",
+        text="Requests are vectors over every parameter of the solver signature. TLC explores identical repeats, every single-parameter change r -> r' -> r (with and without process boundaries), the three halo forms, corrupted entries, and a crash at every step of every request (up to two crashes), and checks Transparent (returned value = Sol(request)), StoreSound, Effective (identical repeat is a hit and does not solve) and NeverFatal; negative-control configurations with the pinned commit's key, unresolved halo and unguarded load must each be violated (thorough). Every complete behaviour is executed on the real solver (all crash-free ones plus a seeded sample of the crashing ones in quick, all in thorough): result bit-identical to the cache-free solve, predicted hit observed, nothing raises; a stored .npz is truncated at every byte offset (thorough; every 16th plus structure boundaries quick) and bit-flipped at sampled offsets; the recorded cache events are validated against the store of the specification.",
+        note="A process boundary is a fresh cache object on the same directory (the class keeps nothing in memory); a crash during the store is simulated by writing half of the archive and aborting; concurrent readers/writers are explored in the model only. The store is written in place (the model's AtomicPut = FALSE): safety relies on an unreadable archive being a miss.", design="4/C15"),
+})
+
 NOT_APPLICABLE = {
     "C01": "asymptotic numerical accuracy against an ODE boundary-value solution: no discrete state/transition content for a TLA+ model; needs a numerical differential oracle (different technique)",
     "C09": "real-valued identities of transcendental similarity formulas and floating-point arange rounding; nothing for TLC (integers only) to enumerate",
